@@ -25,20 +25,19 @@ func BytesAsUint16
   requires len(b) >= 2
   ensures be16(result) == bytes(b[0:2])
 
-// AddPaddingToBytes is only total when the input is either "long enough"
-// (len/8 >= n: returned as is) or not longer than n (left-padded to n bytes).
+// AddPaddingToBytes: an input that is already at least n bytes long (or whose
+// length in 8-byte words reaches n) is returned as is; a shorter one is
+// left-padded with zeros to n bytes. Total for every input (C12).
 func AddPaddingToBytes
   props C12 C13
-  requires len(b) / 8 >= n || len(b) <= n
-  requires n <= 1073741824
-  ensures len(b) / 8 >= n ==> result == b
-  ensures len(b) / 8 < n ==> len(result) == n && fresh(result)
+  requires n <= 1099511627776
+  ensures (len(b) / 8 >= n || len(b) >= n) ==> result == b
+  ensures (len(b) / 8 < n && len(b) < n) ==> len(result) == n && fresh(result)
 
 func Uint64AsPaddedBytes
   props C12 C13
-  requires n <= 1 || n >= 8
-  requires n <= 1073741824
-  ensures n <= 1 ==> len(result) == 8
+  requires n <= 1099511627776
+  ensures n <= 8 ==> len(result) == 8
   ensures n >= 8 ==> len(result) == n
   ensures fresh(result)
 @*/
